@@ -80,7 +80,7 @@ def _references(scenario, rid):
 
 
 # --------------------------------------------------------------------------------------------------- generation
-def _gen_request(rnd, rid, world, cer_template, universe, fc_owner_pool):
+def _gen_request(rnd, rid, world, cer_template, universe, fc_owner_pool, big=False):
     rc, hints, _, package_kinds = universe
     shared_fcs = world["fc_keys"][:2]
     pool = gen_expression_pool(rnd, (rc, hints, shared_fcs, package_kinds), size=(2, 5), depth=(0, 1), max_parts=2)
@@ -92,8 +92,8 @@ def _gen_request(rnd, rid, world, cer_template, universe, fc_owner_pool):
     ahb = gen_validation_ahb(
         rnd,
         pool,
-        n_roots=(1, 2),
-        depth=rnd.choice([0, 1, 2]),
+        n_roots=(2, 4) if big else (1, 2),
+        depth=rnd.choice([1, 2, 3]) if big else rnd.choice([0, 1, 2]),
         p_pool=0.15,
         free_pool=[free_expr_factory()],
         free_inputs=lambda r, disc: r.choice(
@@ -154,7 +154,8 @@ def generate(seed, tier="quick"):
             cer["requirement_constraints"][key] = "FULFILLED"
     owner_pool = [str(k) for k in range(901, 1000) if str(k) not in FORBIDDEN_FC and str(k) not in world["fc_keys"]]
     rnd.shuffle(owner_pool)
-    requests = [_gen_request(rnd, "r0", world, cer, universe, owner_pool)]
+    big = tier == "thorough" and seed % 4 == 0  # larger AHBs for a quarter of the thorough runs
+    requests = [_gen_request(rnd, "r0", world, cer, universe, owner_pool, big)]
     if rnd.random() < 0.4:
         if rnd.random() < 0.5:
             # the same AHB (same expressions and keys) with other inputs, validated by a second caller
